@@ -240,8 +240,8 @@ def r2_dispatch(ctx, sym, table):
     fn = mod.func('apply_binary_operation')
     ctx.analysed_function(mod, fn)
 
-    def mk(cls, literal_of=None):
-        return Obj(cls, cls=cls, promoted=literal_of)
+    def mk(cls, literal_of=None, parents=()):
+        return Obj(cls, cls=cls, promoted=literal_of, parents=list(parents))
 
     def b_isinstance(o, c):
         if not isinstance(o, Obj):
@@ -266,6 +266,10 @@ def r2_dispatch(ctx, sym, table):
         ('miss-left', mk('X'), mk('R'), 'OP', 'IMPOSSIBLE'),
         ('miss-right', mk('L'), mk('X'), 'OP', 'IMPOSSIBLE'),
         ('swapped', mk('R'), mk('L'), 'OP', 'IMPOSSIBLE'),
+        # a class without a row of its own is a miss even when a more general parent type has one: CPython rejects
+        # 1.5 << 2 although "numbers" can be shifted
+        ('miss-left-parent-has-row', mk('X', parents=[mk('L')]), mk('R'), 'OP', 'IMPOSSIBLE'),
+        ('miss-right-parent-has-row', mk('L'), mk('X', parents=[mk('R')]), 'OP', 'IMPOSSIBLE'),
     ]
     from ..fdeval import module_resolver
     for name, l, r, op, want in scenarios:
